@@ -1,12 +1,112 @@
 /-
-  Oracle commands for C13 (stub: owns no commands yet).
+  Oracle commands for C13 (names, digests, store paths).  All byte strings in hex ("-" = empty).
+    mname <s>                 -> bare=h,ns,m,t full=h,ns,m,t valid=b str=<hex> fp=<hex|!>
+    mpath <s>                 -> h,ns,m,t                         (model.ParseNameFromFilepath)
+    nname <s>                 -> p=h,ns,m,t valid=b fq=b str=.. merged=h,ns,m,t mfq=b mstr=..
+    vpart <M|N> <kind> <s>    -> 0|1                              (isValidPart of either package)
+    mp <root> <s>             -> f=scheme,reg,ns,repo,tag path=<hex|!>
+    blobs <root> <s>          -> ok <hex> | err                   (server.GetBlobsPath)
+    digest <s>                -> ok <sum> <String()> | err        (blob.ParseDigest)
+    getfile <dir> <sum>       -> <hex>
+    n2p <s>                   -> ok <hex> | err                   (blob.nameToPath)
+    mfpath <dir> <n> <link>* <name> -> ok <hex> | err             (DiskCache.manifestPath)
+    ext <s>                   -> ok <scheme> h,ns,m,t <sum> | err:scheme|err:digest|err:name
+    split <s>                 -> <scheme> <name> <digest>
+    clean <s>                 -> <hex>
+    join <n> <s>*             -> <hex>
 -/
+import OllamaVerif.Model.Names
 import Oracle.Util
 namespace Oracle.C13
-open Oracle
+open OllamaVerif OllamaVerif.Names Oracle
+
+def b01 (b : Bool) : String := if b then "1" else "0"
+
+def showName (n : Name) : String :=
+  s!"{hexOrDash n.host},{hexOrDash n.ns},{hexOrDash n.model},{hexOrDash n.tag}"
+
+def showOpt : Option Bytes → String
+  | some p => s!"ok {hexOrDash p}"
+  | none => "err"
 
 def handle (toks : List String) : Option String :=
   match toks with
+  | "mname" :: rest =>
+    runTP (do
+      let s ← hex
+      let bare := parseNameBare s
+      let full := parseName s
+      let fp := match filepathM full with | some p => hexOrDash p | none => "!"
+      pure s!"bare={showName bare} full={showName full} valid={b01 (isFQM full)} str={hexOrDash (toStr full)} fp={fp}") rest
+  | "mpath" :: rest =>
+    runTP (do
+      let s ← hex
+      pure (showName (parseNameFromFilepath s))) rest
+  | "nname" :: rest =>
+    runTP (do
+      let s ← hex
+      let n := parseN s
+      let m := merge n defaultMask
+      pure s!"p={showName n} valid={b01 (isValidN n)} fq={b01 (isFQN n)} str={hexOrDash (toStr n)} merged={showName m} mfq={b01 (isFQN m)} mstr={hexOrDash (toStr m)}") rest
+  | "vpart" :: pkg :: rest =>
+    runTP (do
+      let k ← nat
+      let s ← hex
+      pure (b01 (if pkg == "M" then validPartM (Kind.ofIdx k) s else validPartN (Kind.ofIdx k) s))) rest
+  | "mp" :: rest =>
+    runTP (do
+      let root ← hex
+      let s ← hex
+      let mp := parseModelPath s
+      let p := match mpManifestPath root mp with | some p => hexOrDash p | none => "!"
+      pure s!"f={hexOrDash mp.scheme},{hexOrDash mp.registry},{hexOrDash mp.ns},{hexOrDash mp.repo},{hexOrDash mp.tag} path={p}") rest
+  | "blobs" :: rest =>
+    runTP (do
+      let root ← hex
+      let s ← hex
+      pure (showOpt (getBlobsPath root s))) rest
+  | "digest" :: rest =>
+    runTP (do
+      let s ← hex
+      pure (match parseDigest s with
+        | some sum => s!"ok {hexOrDash sum} {hexOrDash (digestString sum)}"
+        | none => "err")) rest
+  | "getfile" :: rest =>
+    runTP (do
+      let dir ← hex
+      let sum ← hex
+      pure (hexOrDash (getFile dir sum))) rest
+  | "n2p" :: rest =>
+    runTP (do
+      let s ← hex
+      pure (showOpt (nameToPath s))) rest
+  | "mfpath" :: rest =>
+    runTP (do
+      let dir ← hex
+      let links ← listOf hex
+      let s ← hex
+      pure (showOpt (manifestPath dir links s))) rest
+  | "ext" :: rest =>
+    runTP (do
+      let s ← hex
+      pure (match parseNameExtended defaultMask s with
+        | .ok (scheme, n, d) => s!"ok {hexOrDash scheme} {showName n} {hexOrDash d}"
+        | .error .scheme => "err:scheme"
+        | .error .digest => "err:digest"
+        | .error .name => "err:name")) rest
+  | "split" :: rest =>
+    runTP (do
+      let s ← hex
+      let (a, b, c) := splitExtended s
+      pure s!"{hexOrDash a} {hexOrDash b} {hexOrDash c}") rest
+  | "clean" :: rest =>
+    runTP (do
+      let s ← hex
+      pure (hexOrDash (clean s))) rest
+  | "join" :: rest =>
+    runTP (do
+      let ps ← listOf hex
+      pure (hexOrDash (pathJoin ps))) rest
   | _ => none
 
 end Oracle.C13
